@@ -364,10 +364,21 @@ bool vfps::ProgramOptions::parse(int ac, char** av)
                                      + _configfile + "\".";
                 Display::printText(message);
                 store(parse_config_file(ifs, _cfgfileopts), _vm);
-                notify(_vm);
-                if(_vm.count("SyncFreq")) {
-                    _vm.at("SynchrotronFrequency").value()
-                            = _vm["SyncFreq"].value();
+                /* Legacy names in the config file act like their current
+                 * names: they fill in the current option unless that one
+                 * was given explicitly (command line or config file).
+                 */
+                for (const auto& alias : {
+                        std::make_pair("RFVoltage","AcceleratingVoltage"),
+                        std::make_pair("SyncFreq","SynchrotronFrequency"),
+                        std::make_pair("steps","StepsPerTs")}) {
+                    if (_vm.count(alias.first)) {
+                        auto& current = _vm.at(alias.second);
+                        if (current.defaulted()) {
+                            current.value() = _vm[alias.first].value();
+                        }
+                        _vm.erase(alias.first);
+                    }
                 }
                 notify(_vm);
             }
